@@ -18,6 +18,13 @@ CHECKS["C02"] = dict(
     note="Trusted: UFL restriction propagation/facet scaling/normals, basix reference topology/geometry. Permutation codes fixed to (0,0) (C03 covers the rest).",
     design="5/C02",
 )
+CHECKS["C16"] = dict(
+    category="exploration",
+    technique="exhaustive enumeration of depth-2 (parent, child, position) triples + Hypothesis random LNodes trees; round-trip oracle format -> independent parser (pycparser / Python ast) -> normal form, plus value equality",
+    text="Every well-typed parent/child/operand-position combination of the AST is formatted by the C formatter (two scalar types) and the numba formatter and re-parsed by an independent grammar; random deeper expression and statement trees (literals near 1, subnormal, negative, complex; MultiIndex operands; nested loops, sections, array declarations) extend this. The depth-2 space is exhausted; deeper trees are sampled.",
+    note="Trusted: pycparser C grammar, CPython ast. Math function *names* are mapped through the formatter's own tables (structure only). INT/INT division and ill-typed trees are outside the domain.",
+    design="5/C16",
+)
 PENDING = {}
 
 def main():
